@@ -55,4 +55,18 @@ var props = []Prop{
 		Bounds:  "8 scripted prefixes x 1 symbolic batch operation (Batch.Add/Remove/Exchange, Relations.ExchangeBatch, Batch.SetRelation / Relations.SetBatch, Batch.RemoveEntities, Builder.NewBatch with count 1..3, target, component values; each with its Q variant) through 8 filter kinds (All, mask, without, exclusive, relation filters with every issued handle or zero as target) with every (add, remove) argument pair legal for all matching entities (quick: at most two components change) x 3 configurations (thorough: 24); oracle = documented single-entity effect applied to every entity matching at call time",
 		Outside: "two or more batch operations in a row; more than 10 entities; batch counts > 3",
 	},
+	{
+		ID: "C03",
+		Harnesses: []H{{Pkg: "ecs", Fn: "HC03_Query"}, {Pkg: "ecs", Fn: "HC03_BatchQuery"}, {Pkg: "ecs", Fn: "HC03_Query", Tags: "tiny", Tier: "thorough"}},
+		Conform: []H{{Pkg: "ecs", Fn: "HSmoke"}, {Pkg: "ecs", Fn: "HConf_Prefixes"}},
+		Bounds:  "10 scripted prefixes (thorough: + one symbolic legal operation) x 8 filter kinds (All, mask, without, exclusive, relation filters with every issued handle / zero as target), plain and registered; per query: full iteration against the model, Count, EntityAt(i) for a fully symbolic 64-bit i, j Next calls followed by Step(s) for a fully symbolic 64-bit s; batch-result queries of ExchangeQ / SetRelationQ / NewBatchQ with all legal arguments: Count, EntityAt for every index, iteration, symbolic EntityAt / Step within the int32 range; 3 configurations (thorough 24)",
+		Outside: "logic-combination filters at world level (their Matches is decided in C04; queries only call Matches); more than 10 entities; relation filters nested inside other filters (documented as unsupported)",
+	},
+	{
+		ID: "C05",
+		Harnesses: []H{{Pkg: "ecs", Fn: "HC05_Rel"}, {Pkg: "ecs", Fn: "HC05_Rel", Tags: "tiny", Tier: "thorough"}},
+		Conform: []H{{Pkg: "ecs", Fn: "HSmoke"}, {Pkg: "ecs", Fn: "HConf_Prefixes"}},
+		Bounds:  "6 relation prefixes (two parents, dead target with children, retired table, two relation types, dead target whose id was re-issued, plain tables) x 1 symbolic operation out of 8 kinds: creation with target (ids / values), Relations.Set, Relations.Exchange, Builder.Add (ids / values), NewBatch(Q) with target, batch SetRelation (4 API variants), Relations.ExchangeBatch(Q), relation calls naming the wrong component (every component incl. ID 0; Get / Set / Query.Relation), plain Exchange (relation swap/removal); the target ranges over zero, every alive handle, every dead handle, the dead handle of a re-issued id and the entity itself; legality and effect per the documentation; 3 configurations (thorough 24)",
+		Outside: "two or more relation operations in a row beyond the scripted prefixes (C01's two-step harness covers pairs of single-entity operations); more than 10 entities",
+	},
 }
